@@ -9,10 +9,11 @@ import PgVerif.Spec.Wal
 namespace PgVerif.Gen.Wal
 open PgVerif PgVerif.Spec.Wal
 
-/-- bimg_info values on which PG 14 and PG 15/16 agree about the compress header, with that answer -/
-def bimgChoices : List (Nat × Bool) :=
-  [(0x00, false), (0x02, false), (0x04, false), (0x06, false), (0x01, false), (0x21, false),
-   (0x07, true), (0x0B, true), (0x0F, true), (0x13, true), (0x1F, true)]
+/-- bimg_info values worth trying: the ordinary full-page image with a hole (0x05 on ≤ 14, 0x03 on ≥ 15), each
+compression bit of either assignment with and without HAS_HOLE, values on which the two assignments disagree
+(0x03, 0x05, 0x09, 0x11) and agree (0x07, 0x0B …) -/
+def bimgChoices : List Nat :=
+  [0x00, 0x01, 0x02, 0x03, 0x03, 0x04, 0x05, 0x05, 0x06, 0x07, 0x09, 0x0B, 0x0D, 0x0F, 0x11, 0x13, 0x15, 0x1F, 0x21, 0xFF]
 
 def genRel : Gen RelFileNode := do
   let spc ← Gen.oneOf [1663, 1664, 0, 2 ^ 32 - 1]
@@ -23,8 +24,10 @@ def genRel : Gen RelFileNode := do
     | _ => Gen.range 16384 16390
   return ⟨spc, db, rel⟩
 
-def genImage (maxData : Nat) : Gen Image := do
-  let (bimg, comp) ← Gen.oneOf bimgChoices
+/-- an image as PostgreSQL ≤ 14 (`pre15`) / ≥ 15 writes it: hole_length present exactly when that version's rule says so -/
+def genImage (pre15 : Bool) (maxData : Nat) : Gen Image := do
+  let bimg ← if ← Gen.prob 1 6 then Gen.below 256 else Gen.oneOf bimgChoices
+  let comp := compressHdr pre15 bimg
   let n ← match ← Gen.below 4 with
     | 0 => pure 0
     | 1 => pure (min maxData 300)
@@ -34,13 +37,13 @@ def genImage (maxData : Nat) : Gen Image := do
            holeLength := if comp then some hl else none }
 
 /-- `k` block references with ascending ids; the first one always carries a relation -/
-def genBlocks (k : Nat) (maxData : Nat) : Gen (List BlockRef) := do
+def genBlocks (pre15 : Bool) (k : Nat) (maxData : Nat) : Gen (List BlockRef) := do
   let mut out : Array BlockRef := #[]
   let mut id ← Gen.oneOf [0, 0, 0, 1, 5, 28]
   for i in [0:k] do
     let hasRel ← if i == 0 then pure true else Gen.prob 1 2
     let rel ← if hasRel then some <$> genRel else pure none
-    let image ← if ← Gen.prob 1 3 then some <$> genImage maxData else pure none
+    let image ← if ← Gen.prob 1 3 then some <$> genImage pre15 maxData else pure none
     let data ← if ← Gen.prob 1 2 then some <$> Gen.bytes (← Gen.range 1 (max 1 (min maxData 30))) else pure none
     let blkno ← Gen.oneOf [0, 1, 7, 131071, 2 ^ 32 - 1]
     out := out.push { id := min id 32, fork := ← Gen.oneOf [0, 0, 1, 2, 3, 15], willInit := ← Gen.prob 1 4,
@@ -60,11 +63,29 @@ def genRmInfo : Gen (Nat × Nat) := do
 def fitMain (room : Nat) : Nat :=
   if room ≤ 2 then 0 else if room ≤ 257 then room - 2 else if room ≤ 260 then 255 else room - 5
 
+/-- the main data of a commit / abort record (`XactEnd`).  Outside the known-finding class (`kf = false`) the record
+decides exactly the transaction of its header: no subtransactions, and a COMMIT/ABORT_PREPARED names the header's xid
+(none when that is 0).  With `kf`: a prepared transaction 700..704 ended from a backend without xid (header xid 0, as
+PostgreSQL writes it), or subtransactions 700..704 -/
+def genXactEnd (kf : Bool) (op xid : Nat) : Gen (Nat × XactEnd) := do
+  let time ← Gen.below (2 ^ 64)
+  let prepared := op == 0x30 || op == 0x40
+  if kf then
+    if prepared then
+      let t ← Gen.range 700 704
+      return (← Gen.oneOf [0, 0, 0, xid], ⟨time, ← Gen.listOf (← Gen.below 2) (Gen.range 700 704), some t⟩)
+    else
+      return (xid, ⟨time, ← Gen.listOf (← Gen.below 3) (Gen.range 700 704), none⟩)
+  else
+    return (xid, ⟨time, [], if prepared && xid != 0 then some xid else none⟩)
+
 /-- a record of total length ≤ `target` (and as close to it as the format allows; `target ≥ 24`);
-`noDbase`: stay outside the known-finding class C17-dbase-ops (no Database record) -/
-def genRecord (target : Nat) (noDbase : Bool := false) : Gen WalRecord := do
+`noKf`: stay outside the known-finding classes (no Btree record: C17-btree-rmname; commit/abort records decide
+their header's transaction only: C17-prepared-xid).  A transaction-manager record with a verdict opcode always gets a
+well-formed xl_xact_commit / xl_xact_abort body (its length is then not fitted to `target`). -/
+def genRecord (pre15 : Bool) (target : Nat) (noKf : Bool := false) : Gen WalRecord := do
   let (rmid, info) ← genRmInfo
-  let rmid := if noDbase && rmid == 4 then 5 else rmid
+  let rmid := if noKf && rmid == 11 then 12 else rmid
   let xid ← match ← Gen.below 6 with
     | 0 => pure 0
     | 1 => Gen.below (2 ^ 32)
@@ -73,13 +94,16 @@ def genRecord (target : Nat) (noDbase : Bool := false) : Gen WalRecord := do
   let k ← if room < 40 then pure 0 else match ← Gen.below 4 with
     | 0 => pure 0
     | _ => Gen.range 1 4
-  let blocks ← genBlocks k (room / (2 * max k 1) )
+  let blocks ← genBlocks pre15 k (room / (2 * max k 1) )
   let origin ← if room > 200 && (← Gen.prob 1 6) then some <$> Gen.oneOf [1, 65535] else pure none
   let topXid ← if room > 200 && (← Gen.prob 1 6) then some <$> Gen.below (2 ^ 32) else pure none
   let r0 : WalRecord := { xid, prev := ← Gen.below (2 ^ 64), info, rmid, crc := ← Gen.below (2 ^ 32),
                           blocks, origin, topXid, mainData := [] }
   let used := r0.totLen
   let r0 := if used > target then { r0 with blocks := [], origin := none, topXid := none } else r0
+  if rmid == 1 && (xactStatus 1 info).isSome then
+    let (hx, x) ← genXactEnd (!noKf) (info &&& 0x70) xid
+    return { r0 with xid := hx, info := (info &&& 0x7F) + (if x.xinfo == 0 then 0 else 0x80), mainData := encXactEnd x }
   let room := target - r0.totLen
   let ml := fitMain room
   -- sometimes a shorter main data than would fit (when the target is not a boundary request this is harmless)
@@ -94,8 +118,8 @@ structure SegParams where
 
 /-- records filling about `pages` pages; the total length of each is chosen from the page geometry
 (records whose header straddles a page end and cross-page records with block references included: repaired by
-fixes/wal/04, 05).  `allowKf` = Database records (known finding C17-dbase-ops) may occur. -/
-def genRecords (pre : Nat) (pages : Nat) (allowKf : Bool) : Gen (List WalRecord) := do
+fixes/wal/04, 05).  `allowKf` = records in the classes of the open findings may occur (see `genRecord`). -/
+def genRecords (pre15 : Bool) (pre : Nat) (pages : Nat) (allowKf : Bool) : Gen (List WalRecord) := do
   -- a third of the segments are dense: small records only (plus the page-geometry choices)
   let dense ← Gen.prob 1 3
   let mut o := align8 pre
@@ -123,14 +147,14 @@ def genRecords (pre : Nat) (pages : Nat) (allowKf : Bool) : Gen (List WalRecord)
           | 10 => pure 24
           | _ => Gen.range 24 200
         let want := min (min (max want 24) 16000) left
-        let r ← genRecord want (!allowKf)
-        let r := if !allowKf && r.rmid == 4 then { r with rmid := 6 } else r
+        let r ← genRecord pre15 want (!allowKf)
         out := out.push r
         o := o + align8 r.totLen
         if ← Gen.prob 1 (if dense then 400 else 40) then stop := true
   return out.toList
 
-def genSegment (maxPages : Nat) (allowKf : Bool) : Gen WalSegment := do
+/-- a segment of PostgreSQL version `magic` -/
+def genSegmentM (magic : Nat) (maxPages : Nat) (allowKf : Bool) : Gen WalSegment := do
   let pages ← match ← Gen.below 5 with
     | 0 => pure 1
     | 1 => pure maxPages
@@ -141,7 +165,7 @@ def genSegment (maxPages : Nat) (allowKf : Bool) : Gen WalSegment := do
     | _ => pure 0
   let preLen := if pageStart pages ≤ align8 preLen then 0 else preLen
   let pre ← Gen.bytes preLen
-  let records ← genRecords preLen pages allowKf
+  let records ← genRecords (pre15 magic) preLen pages allowKf
   let segSize ← Gen.oneOf [16777216, 16777216, 1048576, 1073741824]
   let segno ← match ← Gen.below 4 with
     | 0 => pure 0
@@ -151,9 +175,13 @@ def genSegment (maxPages : Nat) (allowKf : Bool) : Gen WalSegment := do
   let tailPages ← match ← Gen.below 4 with
     | 0 => Gen.range 1 2
     | _ => pure 0
-  return { magic := ← Gen.oneOf [0xD110, 0xD113], tli := ← Gen.oneOf [1, 1, 2, 7, 2 ^ 32 - 1],
+  return { magic, tli := ← Gen.oneOf [1, 1, 2, 7, 2 ^ 32 - 1],
            startAddr := segno * segSize, sysid := ← Gen.below (2 ^ 64), segSize, removable := ← Gen.prob 1 5,
            pre, records, tailPages }
+
+/-- a segment with the page magic of any supported version: XLOG_PAGE_MAGIC of PostgreSQL 12, 13, 14, 15, 16 -/
+def genSegment (maxPages : Nat) (allowKf : Bool) : Gen WalSegment := do
+  genSegmentM (← Gen.oneOf pageMagics) maxPages allowKf
 
 /-- XLogFileName -/
 def upHex (width n : Nat) : String :=
@@ -166,9 +194,11 @@ def segFileName (tli startAddr segSize : Nat) : String :=
   let perId := 2 ^ 32 / segSize
   upHex 8 tli ++ upHex 8 (segno / perId) ++ upHex 8 (segno % perId)
 
-/-- file names of pg_wal that are not segments -/
+/-- file names of pg_wal that are not segments: history / partial / backup-label files, wrong lengths, and 24-character
+names that are not 24 upper-case hexadecimal digits (a copy, a 24-character `.history` name, lower-case hex, `G`) -/
 def junkNames : List String :=
   ["00000002.history", "000000010000000000000003.partial", "000000010000000000000002.00000028.backup",
-   "x", "0000000100000000000000", "00000001000000000000000001", "archive_status.tmp"]
+   "x", "0000000100000000000000", "00000001000000000000000001", "archive_status.tmp",
+   "backup_of_segment_000001", "0000000200000000.history", "00000001000000000000000a", "00000001000000000000000G"]
 
 end PgVerif.Gen.Wal
